@@ -233,6 +233,29 @@ func ruleC07R2(r *Run) {
 			}
 			r.Check(name+" lookup "+src, okKey, p.pos(lk.Pos()), name, fmt.Sprintf("routing-table lookup on %s keyed by [%s]; must be the message's own StreamIDAlias", src, joinLeaves(leaves)))
 		})
+		// a slow or dead stream must not stall the others: per-alias deliveries never block
+		allInstrs(fn, func(ins ssa.Instruction) {
+			if s, ok := ins.(*ssa.Send); ok {
+				l := p.Leaves(s.Chan, provOpts{})
+				for _, x := range l {
+					if strings.HasPrefix(x, "elem:/wire.clientUpstreams.") || strings.HasPrefix(x, "elem:/wire.clientDownstreams.") {
+						r.Check(name+" non-blocking delivery", false, p.pos(s.Pos()), name, "plain blocking send on a per-alias channel taken from "+strings.TrimPrefix(x, "elem:")+": a backlog on one stream head-of-line blocks every other stream of the connection")
+					}
+				}
+			}
+			if sel, ok := ins.(*ssa.Select); ok && sel.Blocking {
+				for _, st := range sel.States {
+					if st.Dir != types.SendOnly {
+						continue
+					}
+					for _, x := range p.Leaves(st.Chan, provOpts{}) {
+						if strings.HasPrefix(x, "elem:/wire.clientUpstreams.") || strings.HasPrefix(x, "elem:/wire.clientDownstreams.") {
+							r.Check(name+" non-blocking delivery", false, p.pos(sel.Pos()), name, "blocking select sends on a per-alias channel taken from "+strings.TrimPrefix(x, "elem:"))
+						}
+					}
+				}
+			}
+		})
 		// sends in dispatch loops go to the channel just looked up
 		if strings.HasPrefix(fn.Name(), "read") && strings.HasSuffix(fn.Name(), "Loop") {
 			allInstrs(fn, func(ins ssa.Instruction) {
@@ -262,6 +285,7 @@ func ruleC07R2(r *Run) {
 						}
 					}
 					r.Check(name+" send-on-found", okGuard, p.pos(sel.Pos()), name, "dispatch send must use the channel found by a comma-ok lookup, on the found edge only")
+					r.Check(name+" non-blocking delivery", !sel.Blocking, p.pos(sel.Pos()), name, "per-alias delivery uses a select with a default case")
 				}
 			})
 		}
